@@ -83,7 +83,7 @@ def tlc(
     """run TLC with cwd = /verif/spec (so EXTENDS finds sibling modules)"""
     WORK.mkdir(exist_ok=True)
     meta = WORK / f"meta_{module}_{tag}_{os.getpid()}_{time.time_ns()}"
-    cmd = ["java", "-XX:+UseParallelGC", f"-Xmx{xmx}"]
+    cmd = ["java", "-XX:+UseParallelGC", f"-Xmx{xmx}", "-Xss64m"]
     if deque:
         cmd.append("-Dtlc2.tool.queue.IStateQueue=StateDeque")
     cmd += ["-cp", TLA_CP, "tlc2.TLC", "-config", cfg, "-workers", str(workers), "-metadir", str(meta), "-noGenerateSpecTE"]
